@@ -1510,3 +1510,20 @@ def b_key_pairs(tier, rnd):
     from mingus.core.keys import Key
     ks = KEYS30
     return {"rule": "all ordered pairs of the 30 keys", "cases": [(Key(a), Key(b)) for a in ks for b in ks]}
+
+
+@battery("track_files")
+def b_track_files(tier, rnd):
+    import io
+    cases = []
+    for k in (0, 1, 2):
+        for _ in range(40 if k else 3):
+            body = b""
+            for _i in range(k):
+                st = rnd.choice([0x80, 0x8f, 0x90, 0x9a, 0xa3, 0xb0, 0xbf, 0xe0, 0xef])
+                body += bytes([rnd.randrange(128), st, rnd.randrange(128), rnd.choice([0, 0, 1, 64, 127])])
+            f = io.BytesIO(b"\x00MTrk" + (4 * k).to_bytes(4, "big") + body + b"\x00\xff\x2f\x00\x00\x00\x00\x00")
+            f.read(1)
+            cases.append((_mfile(), GhostFile(f)))
+    return {"rule": "track chunks of 0, 1, 2 two-parameter channel events (9 status bytes, seeded data, velocity 0 included) "
+                    "with one-byte delta times, file positioned at offset 1", "cases": cases}
